@@ -13,9 +13,12 @@ type c07 struct {
 	st *Stats
 }
 
+// obs: the result of the op, the observable state (Len, IsEmpty, Front, Slice) and — lock-step with the
+// model (audit item A2) — the ring-buffer bookkeeping head, n, len(vs) read through the overlay hook.
 func (r *c07) obs(res string) string {
 	q := r.q
-	return fmt.Sprintf("%s len=%d empty=%s front=%d slice=%s", res, q.Len(), fmtBool(q.IsEmpty()), q.Front(), fmtInts(q.Slice()))
+	head, n, cp := queue.VerifState(q)
+	return fmt.Sprintf("%s len=%d empty=%s front=%d slice=%s head=%d n=%d cap=%d", res, q.Len(), fmtBool(q.IsEmpty()), q.Front(), fmtInts(q.Slice()), head, n, cp)
 }
 
 func (r *c07) Exec(op []string) string {
